@@ -14,6 +14,8 @@ import (
 	"encoding/json"
 	"fmt"
 	"regexp"
+	"sort"
+	"strings"
 	"time"
 
 	"go.flow.arcalot.io/pluginsdk/mcrt"
@@ -95,11 +97,23 @@ func outcome(v any, err error) string {
 
 var addrRe = regexp.MustCompile(`0x[0-9a-f]{6,}`)
 
+// "expected one of: a, b, c" lists the declared keys in the order a map happened to be walked in; the walk may go
+// through maps.Keys or reflection, which the map-order seam does not control. The list is compared as a set.
+var keyListRe = regexp.MustCompile(`expected one of: ([^;\n]*)`)
+
+func sortKeyLists(s string) string {
+	return keyListRe.ReplaceAllStringFunc(s, func(m string) string {
+		names := strings.Split(strings.TrimPrefix(m, "expected one of: "), ", ")
+		sort.Strings(names)
+		return "expected one of: " + strings.Join(names, ", ")
+	})
+}
+
 // outcomeE also renders the error (its text carries the path to the offending value): used where every call runs
 // under the one sorted iteration order, so that the text is a function of (schema, argument) too.
 func outcomeE(v any, err error) string {
 	if err != nil {
-		return "reject: " + addrRe.ReplaceAllString(err.Error(), "0xADDR")
+		return "reject: " + sortKeyLists(addrRe.ReplaceAllString(err.Error(), "0xADDR"))
 	}
 	return outcome(v, err)
 }
